@@ -9,6 +9,7 @@
 #include "nx_convert.hpp"
 int main(int argc, char** argv) {
   verif::Ctx C(argc, argv);
+  nx_convert::selftestNegative() = C.flag("selftest-negative");
 #ifdef NXC_MODE_CONVERT
   if (C.mode == "convert") {
     nx_convert::runConvert(C);
